@@ -59,17 +59,26 @@ class DomainParser:
                 continue
 
             pddl_type = types[index + 1]
-            parent_type = pddl_types.get(
-                pddl_type, PDDLType(name=pddl_type, parent=ObjectType)
-            )
-            pddl_types.update(
-                {
-                    descendant_typ_name: PDDLType(
+            if pddl_type == "object":
+                parent_type = ObjectType
+
+            else:
+                # a parent that was not declared (yet) is registered as a direct descendant of object.
+                if pddl_type not in pddl_types:
+                    pddl_types[pddl_type] = PDDLType(name=pddl_type, parent=ObjectType)
+
+                parent_type = pddl_types[pddl_type]
+
+            for descendant_typ_name in same_types_objects:
+                if descendant_typ_name in pddl_types:
+                    # the type was already referenced as a parent - its descendants keep pointing to it.
+                    pddl_types[descendant_typ_name].parent = parent_type
+
+                else:
+                    pddl_types[descendant_typ_name] = PDDLType(
                         name=descendant_typ_name, parent=parent_type
                     )
-                    for descendant_typ_name in same_types_objects
-                }
-            )
+
             same_types_objects = []
             index += 2
             continue
@@ -79,6 +88,7 @@ class DomainParser:
                 {
                     type_name: PDDLType(name=type_name, parent=ObjectType)
                     for type_name in same_types_objects
+                    if type_name not in pddl_types
                 }
             )
 
